@@ -498,3 +498,72 @@ contract(
     canaries=[("empty_baits_kept", "tgt_arr = tgt_arr[tgt_arr.start != tgt_arr.end]", "tgt_arr = tgt_arr[tgt_arr.start <= tgt_arr.end]"),
               ("minimum_size_on_split", "tgt_arr.subdivide(avg_size, 0)", "tgt_arr.subdivide(avg_size, 100)")],
 )
+
+
+# ----------------------------------------------------------------------------- deductive: joining accessible regions over small gaps (C13)
+_SUB = ObjT("GenomicArray", data=TabT(index="any", chromosome=CHROM, start=Int, end=Int), meta=DictT())
+_REGS = ObjT("GenomicArray", data=TabT(index="any", chromosome=CHROM, start=Int, end=Int), meta=DictT(),
+             groups=SeqT(TupT(CHROM, _SUB)))
+
+# row m of group i, and the gap after it
+_RS = "regions.groups[i][1].data.start[m]"
+_RE = "regions.groups[i][1].data.end[m]"
+_GLEN = "len(regions.groups[i][1].data)"
+# base x of group i's chromosome is inside row m, or inside the gap after row m when that gap is smaller than the minimum
+_IN_ROW_OR_SMALL_GAP = ("((RS <= x and x < RE) or (m + 1 < GLEN and RE <= x and x < RS1 and RS1 - RE < min_gap_size))"
+                        .replace("RS1", _RS.replace("[m]", "[m + 1]")).replace("RS", _RS).replace("RE", _RE).replace("GLEN", _GLEN))
+
+contract(
+    "cnvlib/access.py::join_regions",
+    params=dict(regions=_REGS, min_gap_size=Int),
+    yields=TupT(CHROM, Int, Int),
+    requires=[
+        "min_gap_size >= 0",
+        # what by_chromosome hands out (assumed): non-empty per-chromosome tables, sorted with a gap of at least one base
+        "forall(0, len(regions.groups), lambda i: GLEN >= 1 and forall(0, GLEN, lambda m: RS < RE and "
+        "implies(m + 1 < GLEN, RE < RS1)))".replace("RS1", _RS.replace("[m]", "[m + 1]")).replace("RS", _RS).replace("RE", _RE).replace("GLEN", _GLEN),
+    ],
+    loops={
+        0: dict(inv=[
+            ("pieces_sound", "forall(0, len(out_), lambda j: let(lambda i: 0 <= i and i < i_ and out_[j][0] == regions.groups[i][0] and "
+                             "out_[j][1] < out_[j][2] and forall(lambda x: implies(uf_bool('base', x) and out_[j][1] <= x and x < out_[j][2], "
+                             "exists(0, GLEN, lambda m: INROW))), src_[j][0]))".replace("INROW", _IN_ROW_OR_SMALL_GAP).replace("GLEN", _GLEN)),
+            ("groups_done_covered", "forall(0, i_, lambda i: forall(0, GLEN, lambda m: forall(lambda x: implies(uf_bool('base', x) and INROW, "
+                                    "exists(0, len(out_), lambda j: src_[j][0] == i and out_[j][1] <= x and x < out_[j][2])))))"
+                                    .replace("INROW", _IN_ROW_OR_SMALL_GAP).replace("GLEN", _GLEN)),
+        ]),
+        1: dict(inv=[
+            ("pieces_sound", "forall(0, len(out_), lambda j: let(lambda i: 0 <= i and i <= i0_ and out_[j][0] == regions.groups[i][0] and "
+                             "out_[j][1] < out_[j][2] and forall(lambda x: implies(uf_bool('base', x) and out_[j][1] <= x and x < out_[j][2], "
+                             "exists(0, GLEN, lambda m: INROW))), src_[j][0]))".replace("INROW", _IN_ROW_OR_SMALL_GAP).replace("GLEN", _GLEN)),
+            ("groups_done_covered", "forall(0, i0_, lambda i: forall(0, GLEN, lambda m: forall(lambda x: implies(uf_bool('base', x) and INROW, "
+                                    "exists(0, len(out_), lambda j: src_[j][0] == i and out_[j][1] <= x and x < out_[j][2])))))"
+                                    .replace("INROW", _IN_ROW_OR_SMALL_GAP).replace("GLEN", _GLEN)),
+            # the run being grown: it ends with row i_ of the current group, and is made of rows and small gaps only
+            ("pending_run_ends_here", "prev_end == rows.data.end[i_] and prev_start < prev_end and chrom == regions.groups[i0_][0] and "
+                                      "rows is regions.groups[i0_][1]"),
+            ("pending_run_sound", "let(lambda i: forall(lambda x: implies(uf_bool('base', x) and prev_start <= x and x < prev_end, "
+                                  "exists(0, i_ + 1, lambda m: INROW))), i0_)".replace("INROW", _IN_ROW_OR_SMALL_GAP)),
+            ("rows_so_far_covered", "let(lambda i: forall(0, i_ + 1, lambda m: forall(lambda x: implies(uf_bool('base', x) and INROW2, "
+                                    "(prev_start <= x and x < prev_end) or exists(0, len(out_), lambda j: src_[j][0] == i and out_[j][1] <= x and x < out_[j][2])))), i0_)"
+                                    .replace("INROW2", _IN_ROW_OR_SMALL_GAP.replace("m + 1 < " + _GLEN, "m + 1 <= i_"))),
+        ]),
+    },
+    ensures=[
+        # every base of every reported region is a base of an input region or of a gap smaller than the minimum ...
+        ("only_regions_and_small_gaps", "forall(0, len(result), lambda j: let(lambda i: 0 <= i and i < len(regions.groups) and result[j][0] == regions.groups[i][0] and "
+                                        "result[j][1] < result[j][2] and forall(lambda x: implies(uf_bool('base', x) and result[j][1] <= x and x < result[j][2], "
+                                        "exists(0, GLEN, lambda m: INROW))), src_[j][0]))".replace("INROW", _IN_ROW_OR_SMALL_GAP).replace("GLEN", _GLEN)),
+        # ... and every such base is reported
+        ("all_regions_and_small_gaps", "forall(0, len(regions.groups), lambda i: forall(0, GLEN, lambda m: forall(lambda x: implies(uf_bool('base', x) and INROW, "
+                                       "exists(0, len(result), lambda j: src_[j][0] == i and result[j][1] <= x and x < result[j][2])))))"
+                                       .replace("INROW", _IN_ROW_OR_SMALL_GAP).replace("GLEN", _GLEN)),
+    ],
+    props=("C13",), domain="skip",
+    canaries=[("gap_le", "if gap < min_gap_size:", "if gap <= min_gap_size:"),
+              ("start_not_reset", "prev_start, prev_end = start, end", "prev_end = end"),
+              ("single_region_groups_dropped", 'logging.info("%s: Joining over small gaps", chrom)', "if len(rows) < 2: continue"),
+              ("emits_current_instead_of_previous", "yield (chrom, prev_start, prev_end)\n                prev_start", "yield (chrom, start, end)\n                prev_start")],
+    notes="the per-chromosome tables are the ghost field regions.groups (= what by_chromosome yields, assumed to be the "
+          "non-empty per-chromosome sub-tables, sorted, rows at least one base apart: access/subtract output)",
+)
